@@ -43,6 +43,11 @@ pub struct Caller {
     /// handle kept in a pool or balancer until the request comes)
     #[serde(default)]
     pub ready_early: u64,
+    /// the call is made the way a wrapping middleware does it: after poll_ready on the handle,
+    /// `let clone = h.clone(); let ready = mem::replace(&mut h, clone); ready.call(req)` - the clone
+    /// stays behind as the handle for later requests
+    #[serde(default)]
+    pub swap_idiom: bool,
 }
 
 #[derive(Clone, Debug, Serialize, Deserialize)]
@@ -93,9 +98,9 @@ fn case_strategy(tier: Tier) -> BoxedStrategy<BhCase> {
             2 => (1u64..=100).prop_map(Some),
         ],
         prop_oneof![6 => Just(0u64), 1 => 1u64..=3, 1 => (1u64..=3).prop_map(|k| k * 10)],
-        prop_oneof![5 => Just(0u64), 1 => 1u64..=40, 1 => (1u64..=8).prop_map(|k| k * 10)],
+        (prop_oneof![5 => Just(0u64), 1 => 1u64..=40, 1 => (1u64..=8).prop_map(|k| k * 10)], prop::bool::weighted(0.3)),
     )
-        .prop_map(|(at, clone, svc2, step, cancel_after, poll_delay, ready_early)| Caller {
+        .prop_map(|(at, clone, svc2, step, cancel_after, poll_delay, (ready_early, swap_idiom))| Caller {
             at,
             clone,
             svc2,
@@ -103,6 +108,7 @@ fn case_strategy(tier: Tier) -> BoxedStrategy<BhCase> {
             cancel_after,
             poll_delay,
             ready_early,
+            swap_idiom,
         });
     (
         1..=max_hi,
@@ -424,14 +430,30 @@ async fn interp(case: &BhCase) -> Verdict {
                     tag: 0xB000 + i as u64,
                 };
                 let k = (c.clone % case.clones) as usize;
-                let fut = if c.svc2 {
-                    let s = &mut clones2[k];
-                    let _ = futures::future::poll_fn(|cx| s.poll_ready(cx)).await;
-                    Box::pin(s.call(req)) as futures::future::BoxFuture<'static, _>
-                } else {
-                    let s = &mut clones1[k];
-                    let _ = futures::future::poll_fn(|cx| s.poll_ready(cx)).await;
-                    Box::pin(s.call(req)) as futures::future::BoxFuture<'static, _>
+                let s = if c.svc2 { &mut clones2[k] } else { &mut clones1[k] };
+                let _ = futures::future::poll_fn(|cx| s.poll_ready(cx)).await;
+                let swap = c.swap_idiom;
+                // Service::call itself must not panic (whatever the configuration)
+                let made = std::panic::catch_unwind(std::panic::AssertUnwindSafe(|| {
+                    if swap {
+                        let fresh = s.clone();
+                        let mut ready = std::mem::replace(s, fresh);
+                        Box::pin(ready.call(req)) as futures::future::BoxFuture<'static, _>
+                    } else {
+                        Box::pin(s.call(req)) as futures::future::BoxFuture<'static, _>
+                    }
+                }));
+                let fut = match made {
+                    Ok(f) => f,
+                    Err(p) => {
+                        if !p.is::<sim::ScriptedPanic>() {
+                            v.c07.push(format!(
+                                "t={t}: Bulkhead::call panicked for caller {i}: {}",
+                                sim::panic_msg(&p)
+                            ));
+                        }
+                        continue;
+                    }
                 };
                 held[i] = Some(fut);
                 rt[i].arrived = true;
